@@ -597,7 +597,11 @@ func init() {
 		timeT := ex.P.Pkgs["time"].Type("Time").Type()
 		ex.nextObj++
 		c := &ChanObj{ID: ex.nextObj, Cap: 1, ET: timeT, Label: "timer.C"}
-		c.Buf = []Value{ex.zero(timeT)}
+		if ex.lazyTimers {
+			ex.pendingTimers = append(ex.pendingTimers, c)
+		} else {
+			c.Buf = []Value{ex.zero(timeT)}
+		}
 		st := ex.zero(tt).(*StructV)
 		nf := append([]Value(nil), st.F...)
 		nf[0] = &Chan{C: c}
@@ -607,15 +611,25 @@ func init() {
 	}
 	m["(*time.Timer).Stop"] = func(ex *Exec, fr *frame, a []Value) Value {
 		t := ex.load(a[0].(*Ptr)).(*StructV)
-		if c, ok := t.F[0].(*Chan); ok && c.C != nil && len(c.C.Buf) > 0 {
-			c.C.Buf = nil
-			return ex.B.True
+		if c, ok := t.F[0].(*Chan); ok && c.C != nil {
+			if ex.disarmTimer(c.C) {
+				return ex.B.True
+			}
+			if len(c.C.Buf) > 0 && !ex.lazyTimers {
+				c.C.Buf = nil
+				return ex.B.True
+			}
 		}
 		return ex.B.False
 	}
 	m["(*time.Timer).Reset"] = func(ex *Exec, fr *frame, a []Value) Value {
 		t := ex.load(a[0].(*Ptr)).(*StructV)
 		if c, ok := t.F[0].(*Chan); ok && c.C != nil {
+			if ex.lazyTimers {
+				was := ex.disarmTimer(c.C)
+				ex.pendingTimers = append(ex.pendingTimers, c.C)
+				return ex.B.Bool(was)
+			}
 			was := len(c.C.Buf) > 0
 			c.C.Buf = []Value{ex.zero(c.C.ET)}
 			return ex.B.Bool(was)
